@@ -26,7 +26,12 @@ RULE = ("move cases: every labelled tree on 2..6 atoms (7 in the thorough tier) 
         "displacement cases: 1, 2, 3+ neighbours, recorded draws of rand/choice/normal, generic and exactly collinear "
         "(dyadic) geometries, negative sigma scale, atoms without neighbours; half of them with table lengths equal to the "
         "geometry, half multiplied by log-uniform factors in [0.3, 3]; the same through move_mol_atom(displ=None) "
-        "(terminal atoms for two thirds, trees and cyclic graphs up to 12 atoms).")
+        "(terminal atoms for two thirds, trees and cyclic graphs up to 12 atoms). "
+        "call histories: 3..9 calls in one process on 1..3 molecules of 2..8 atoms (60 % of the same shape; trees and cyclic "
+        "graphs; tables agreeing, perturbed, x0.3..3), each call a move / move with drawn displacement / displacement / "
+        "move on a malformed table that raises (7 kinds, at different stages of the walk) / in-place edit of a table's lengths; "
+        "input = the molecule's start array or an earlier result (same object, r[:], r[...], r.view(), copy); every array the "
+        "caller holds is re-checked after every later call and every result is judged again at the end.")
 
 EXC = {IndexError: "EIndex", KeyError: "EKey", ValueError: "EValue"}
 CALL_LIMIT_S = 10      # a call normally takes well under a millisecond per atom
@@ -369,18 +374,15 @@ def spans(n, k, tb, out):
     return component(lambda i, j, b: True) == component(lambda i, j, b: bond_ok(out, i, j, b))
 
 
-def oracle_move(case):
-    """failed clauses of the property text on one well-formed input (connected graph, generic coordinates)"""
-    pos, tj, k, d = case["pos"], case["table"], case["k"], case["d"]
-    out, err, unchanged = impl_move(pos, tj, k, d)
+def judge_move(is_tree, a, tb, k, d, out, err, unchanged):
+    """failed clauses of the property text for ONE call move_mol_atom(a, tb, k, d) -> out on a well-formed input
+    (connected graph, generic coordinates); a = the input VALUES at the time of the call"""
     if err == "EFuel":
         return ["no result within %d s (the propagation loop does not terminate)" % CALL_LIMIT_S]
     if err is not None:
         return ["raised %s on a well-formed input" % err]
     bad = []
-    a = np.array(pos, dtype=float)
     dd = np.array(d, dtype=float)
-    tb = table_dict(tj)
     if not unchanged:
         bad.append("input array modified")
     if out.shape != a.shape:
@@ -390,7 +392,13 @@ def oracle_move(case):
     scale = max(np.abs(a).max(), np.abs(dd).max())
     if np.abs(out[k] - (a[k] + dd)).max() > 1e-12 * scale:
         bad.append("moved atom is not displaced by the requested vector (off by %.3g)" % np.abs(out[k] - (a[k] + dd)).max())
-    return bad + bond_failures(case["tree"], a, out, tb, k)
+    return bad + bond_failures(is_tree, a, out, tb, k)
+
+
+def oracle_move(case):
+    pos, tj, k, d = case["pos"], case["table"], case["k"], case["d"]
+    out, err, unchanged = impl_move(pos, tj, k, d)
+    return judge_move(case["tree"], np.array(pos, dtype=float), table_dict(tj), k, d, out, err, unchanged)
 
 
 def bond_failures(is_tree, a, out, tb, k):
@@ -432,11 +440,9 @@ def perp_failures(pos, nb, k, v, slack=0.0):
     return bad
 
 
-def oracle_displ(case):
+def judge_displ(a, tb, k, out, err, unchanged):
     """generic coordinates, atom with at least one neighbour, sigma_scale >= 0; the table may agree or disagree with
     the geometry (the clause is about the CURRENT positions of the neighbours)"""
-    pos, tj, k = np.array(case["pos"], dtype=float), case["table"], case["k"]
-    out, err, dr, unchanged = impl_displ(pos, tj, k, case["sigma_scale"], case["seed"], case.get("force_u"), wrap=False)
     if err is not None:
         return ["raised %s on a well-formed input" % err]
     bad = []
@@ -444,21 +450,24 @@ def oracle_displ(case):
         bad.append("input array modified")
     if out.shape != (3,) or not np.isfinite(out).all():
         return bad + ["displacement not a finite 3-vector: %r" % (out,)]
-    nb = [j for j, _ in table_dict(tj)[k]]
-    return bad + perp_failures(pos, nb, k, out)
+    nb = [j for j, _ in tb[k]]
+    return bad + perp_failures(a, nb, k, out)
 
 
-def oracle_move_random(case):
+def oracle_displ(case):
+    pos, tj, k = np.array(case["pos"], dtype=float), case["table"], case["k"]
+    out, err, dr, unchanged = impl_displ(pos, tj, k, case["sigma_scale"], case["seed"], case.get("force_u"), wrap=False)
+    return judge_displ(pos, table_dict(tj), k, out, err, unchanged)
+
+
+def judge_move_random(is_tree, a, tb, k, out, err, unchanged):
     """move_mol_atom(pos, table, k, sigma_scale=s) with displ=None: the displacement is drawn inside, so new[k] - old[k]
     must satisfy the perpendicularity clause, and the bonds must be restored as for a given displacement"""
-    a, tj, k = np.array(case["pos"], dtype=float), case["table"], case["k"]
-    out, err, dr, unchanged = impl_random("move", a, tj, k, case["sigma_scale"], case["seed"], wrap=False)
     if err == "EFuel":
         return ["no result within %d s (the propagation loop does not terminate)" % CALL_LIMIT_S]
     if err is not None:
         return ["raised %s on a well-formed input" % err]
     bad = []
-    tb = table_dict(tj)
     if not unchanged:
         bad.append("input array modified")
     if out.shape != a.shape:
@@ -468,11 +477,239 @@ def oracle_move_random(case):
     nb = [j for j, _ in tb[k]]
     # out[k] - a[k] carries the rounding of one addition and one subtraction at the magnitude of the coordinates
     bad += perp_failures(a, nb, k, out[k] - a[k], slack=8 * np.finfo(float).eps * np.abs(a).max())
-    return bad + bond_failures(case["tree"], a, out, tb, k)
+    return bad + bond_failures(is_tree, a, out, tb, k)
+
+
+def oracle_move_random(case):
+    a, tj, k = np.array(case["pos"], dtype=float), case["table"], case["k"]
+    out, err, dr, unchanged = impl_random("move", a, tj, k, case["sigma_scale"], case["seed"], wrap=False)
+    return judge_move_random(case["tree"], a, table_dict(tj), k, out, err, unchanged)
+
+
+# ------------------------------------------------------------------ call histories
+# A history is a sequence of calls made in ONE process by a caller that keeps what it gets: the start arrays of a few
+# molecules (some of the same shape), their bond-table dicts (one dict object per molecule, reused), and every array
+# returned so far.  Later calls may take an earlier result as input - the same object, a full view of it (r[:], r[...],
+# r.view()) or a copy - may fail (malformed table: the exception is the caller's problem, nothing is required of that
+# call) and may follow an in-place edit of a table's lengths.  The property is judged for every well-formed call on the
+# values at the time of the call, and every array the caller holds (inputs and all earlier results) must keep its
+# values through all later calls.
+VIEWS = {"same": lambda r: r, "slice": lambda r: r[:], "ellipsis": lambda r: r[...], "view": lambda r: r.view(),
+         "copy": lambda r: r.copy()}
+
+
+def same_values(x, y):
+    return x.shape == y.shape and x.tobytes() == y.tobytes()
+
+
+def exec_history(hist, wrap):
+    """runs the calls of a history against the implementation.  Returns (records, held_failures):
+    records[t] = dict(a=input values before the call, out=returned object or None, snap=its values right after the
+    call, err, unchanged, dr, tb=table used) or None for a table edit"""
+    import gaddlemaps
+    starts = [np.array(m["pos"], dtype=float).reshape(-1, 3) for m in hist["molecules"]]
+    tables = [table_dict(m["table"]) for m in hist["molecules"]]
+    held = [["start array of molecule %d" % i, arr, arr.copy()] for i, arr in enumerate(starts)]
+    results, records, failures = {}, [], []
+    for t, st in enumerate(hist["steps"]):
+        m = st["mol"]
+        if st["op"] == "retable":
+            tables[m].clear()
+            tables[m].update(table_dict(st["table"]))
+            records.append(None)
+            continue
+        src = st.get("input", "start")
+        base = results.get(src["result_of"]) if isinstance(src, dict) else None
+        inp = VIEWS[src["how"]](base) if base is not None else starts[m]
+        tb = table_dict(st["table"]) if st["op"] == "bad_move" else tables[m]
+        a = np.array(inp, dtype=float)
+        out, err, dr = None, None, None
+        ctxm = Draws(np.random.RandomState(st.get("seed", 0))) if wrap else Seeded(st.get("seed", 0))
+        with ctxm as dr:
+            try:
+                with np.errstate(all="ignore"), time_limit():
+                    if st["op"] in ("move", "bad_move"):
+                        out = gaddlemaps.move_mol_atom(inp, tb, st["k"], np.array(st["d"], dtype=float))
+                    elif st["op"] == "move_random":
+                        out = gaddlemaps.move_mol_atom(inp, tb, st["k"], sigma_scale=st["sigma_scale"])
+                    else:
+                        out = gaddlemaps.find_atom_random_displ(inp, tb, st["k"], sigma_scale=st["sigma_scale"])
+            except Hang:
+                err = "EFuel"
+            except tuple(EXC) as e:
+                err = [name for cls, name in EXC.items() if isinstance(e, cls)][0]
+        unchanged = same_values(np.asarray(inp), a)
+        # everything the caller holds keeps its values
+        for h in held:
+            if not same_values(h[1], h[2]):
+                alias = out is not None and isinstance(out, np.ndarray) and np.shares_memory(out, h[1])
+                failures.append("call %d (%s, molecule %d) changed the %s%s" % (
+                    t, st["op"], m, h[0], " (the returned array shares its memory)" if alias else ""))
+                h[2] = h[1].copy()
+        rec = {"a": a, "out": out, "snap": None if out is None else np.array(out, dtype=float), "err": err,
+               "unchanged": unchanged, "dr": dr, "tb": {i: list(l) for i, l in tb.items()},     # the table as it was at the call
+               "tj": st["table"] if st["op"] == "bad_move" else None}
+        if tables[m] is tb:
+            rec["tj"] = table_json(tb, len(a))
+        records.append(rec)
+        if isinstance(out, np.ndarray) and out.shape == a.shape:
+            results[t] = out
+            held.append(["array returned by call %d" % t, out, out.copy()])
+    return records, failures
+
+
+def judge_step(hist, st, rec, out):
+    mol = hist["molecules"][st["mol"]]
+    if st["op"] == "move":
+        return judge_move(mol["tree"], rec["a"], rec["tb"], st["k"], st["d"], out, rec["err"], rec["unchanged"])
+    if st["op"] == "move_random":
+        return judge_move_random(mol["tree"], rec["a"], rec["tb"], st["k"], out, rec["err"], rec["unchanged"])
+    if st["op"] == "displ":
+        return judge_displ(rec["a"], rec["tb"], st["k"], out, rec["err"], rec["unchanged"])
+    return []          # bad_move: outside the property's domain
+
+
+def oracle_history(hist):
+    records, failures = exec_history(hist, wrap=False)
+    bad = list(failures)
+    for t, (st, rec) in enumerate(zip(hist["steps"], records)):
+        if rec is None:
+            continue
+        now = judge_step(hist, st, rec, rec["snap"])
+        bad += ["call %d (%s, molecule %d): %s" % (t, st["op"], st["mol"], msg) for msg in now]
+        # the array the caller still holds at the end of the history, judged again
+        if not now and rec["out"] is not None and rec["err"] is None:
+            later = judge_step(hist, st, dict(rec, unchanged=True), np.array(rec["out"], dtype=float))
+            bad += ["the array returned by call %d (%s, molecule %d), inspected after the later calls: %s"
+                    % (t, st["op"], st["mol"], msg) for msg in later]
+    return bad
+
+
+def malform(rs, tj, n, k):
+    """a table/atom on which move_mol_atom raises, at different stages of the walk"""
+    tj = [None if l is None else [list(x) for x in l] for l in tj]
+    what = ["missing_key_other", "nbr_out_of_range_k_last", "nbr_out_of_range_k_first", "dup_neighbour_k", "self_bond_k",
+            "k_out_of_range", "missing_key_k"][rs.randint(0, 7)]
+    other = int((k + 1 + rs.randint(0, max(1, n - 1))) % n)
+    if what == "missing_key_other" and other != k:
+        tj[other] = None
+    elif what == "nbr_out_of_range_k_last":
+        tj[k] = tj[k] + [[n + int(rs.randint(0, 4)), 0.1]]
+    elif what == "nbr_out_of_range_k_first":
+        tj[k] = [[n + int(rs.randint(0, 4)), 0.1]] + tj[k]
+    elif what == "dup_neighbour_k" and tj[k]:
+        tj[k] = tj[k] + [list(tj[k][0])]
+    elif what == "self_bond_k":
+        tj[k] = tj[k] + [[k, 0.1]]
+    elif what == "k_out_of_range":
+        k = n + int(rs.randint(0, 3))
+    else:
+        what = "missing_key_k"
+        tj[k] = None
+    return tj, k, what
+
+
+def gen_history(rs):
+    n0 = int(rs.randint(2, 9))
+    mols = []
+    for _ in range(int(rs.randint(1, 4))):
+        n = n0 if rs.randint(0, 5) < 3 else int(rs.randint(2, 9))        # molecules of the same shape are common
+        cyc = n >= 3 and not rs.randint(0, 4)
+        bonds = molgen.random_graph(rs, n, int(rs.randint(1, 3))) if cyc else molgen.random_tree(rs, n)
+        scale = 10 ** rs.uniform(-1, 1)
+        pos = gen_geometry(rs, n, bonds, "walk" if rs.randint(0, 3) else "box", scale)
+        mode = ["agree", "perturbed", "wide"][rs.randint(0, 3)]
+        table = gen_table(rs, n, bonds, pos, mode, scale, shuffle=bool(rs.randint(0, 2)))
+        mols.append({"n": n, "tree": len(bonds) == n - 1, "mode": mode, "scale": scale, "bonds": [list(b) for b in bonds],
+                     "pos": np.array(pos).tolist(), "table": table_json(table, n)})
+    steps, produced = [], {i: [] for i in range(len(mols))}
+    for t in range(int(rs.randint(3, 10))):
+        m = int(rs.randint(0, len(mols)))
+        mol = mols[m]
+        n, a = mol["n"], np.array(mol["pos"])
+        op = ["move", "move", "move", "move", "move_random", "move_random", "displ", "bad_move", "bad_move", "retable"][
+            rs.randint(0, 10)]
+        if op == "retable":
+            mode = ["agree", "perturbed", "wide"][rs.randint(0, 3)]
+            table = gen_table(rs, n, [tuple(b) for b in mol["bonds"]], a, mode, mol["scale"], shuffle=bool(rs.randint(0, 2)))
+            steps.append({"op": op, "mol": m, "table": table_json(table, n)})
+            continue
+        st = {"op": op, "mol": m, "k": int(rs.randint(0, n)), "seed": int(rs.randint(0, 2 ** 31))}
+        if produced[m] and rs.randint(0, 3):
+            st["input"] = {"result_of": int(produced[m][rs.randint(0, len(produced[m]))]),
+                           "how": ["same", "slice", "ellipsis", "view", "copy"][rs.randint(0, 5)]}
+        else:
+            st["input"] = "start"
+        if op in ("move", "bad_move"):
+            st["d"] = [float(x) for x in gen_displ(rs, a, table_dict(mol["table"]), st["k"], np.abs(a).max())]
+        else:
+            st["sigma_scale"] = float(rs.uniform(0.05, 2))
+        if op == "bad_move":
+            # the table currently in force for the molecule is not known here (retable): malform the original one
+            st["table"], st["k"], st["what"] = malform(rs, mol["table"], n, st["k"])
+        if op in ("move", "move_random"):
+            produced[m].append(t)
+        steps.append(st)
+    return {"kind": "history", "gen": "generic", "molecules": mols, "steps": steps}
+
+
+def corpus_histories():
+    """hand-made histories: (1) several conformations of one molecule generated from the same start array and kept, then a
+    full view of the last one passed as input; (2) a call that fails half-way (table lacking an atom's entry, index outside
+    the array) followed by valid calls on another molecule and on the same one"""
+    rs = np.random.RandomState(7)
+
+    def mol(n, bonds, mode):
+        pos = gen_geometry(rs, n, bonds, "walk", 1.0)
+        table = gen_table(rs, n, bonds, pos, mode, 1.0, shuffle=False)
+        return {"n": n, "tree": len(bonds) == n - 1, "mode": mode, "scale": 1.0, "bonds": [list(b) for b in bonds],
+                "pos": np.array(pos).tolist(), "table": table_json(table, n)}
+
+    def mv(m, k, inp="start"):
+        return {"op": "move", "mol": m, "k": k, "seed": 0, "input": inp, "d": [float(x) for x in rs.normal(0, 0.4, 3)]}
+    branched = mol(7, [(0, 1), (1, 2), (2, 3), (1, 4), (2, 5), (5, 6)], "perturbed")
+    yield {"kind": "history", "gen": "corpus", "molecules": [branched],
+           "steps": [mv(0, 3), mv(0, 0), mv(0, 6), mv(0, 2, {"result_of": 2, "how": "slice"}),
+                     mv(0, 4, {"result_of": 3, "how": "same"}), mv(0, 1, {"result_of": 4, "how": "view"})]}
+    star = mol(4, [(0, 1), (0, 2), (0, 3)], "agree")
+    chain = mol(5, [(0, 1), (1, 2), (2, 3), (3, 4)], "wide")
+    for what in ("missing", "outside"):
+        tj = [None if l is None else [list(x) for x in l] for l in star["table"]]
+        if what == "missing":
+            tj[3] = None                       # KeyError when the walk reaches atom 3
+        else:
+            tj[0] = tj[0] + [[9, 0.1]]         # ValueError after the real neighbours have been queued
+        bad = {"op": "bad_move", "mol": 0, "k": 0, "seed": 0, "input": "start", "d": [0.1, -0.2, 0.3], "table": tj,
+               "what": what}
+        yield {"kind": "history", "gen": "corpus", "molecules": [star, chain],
+               "steps": [mv(1, 2), bad, mv(1, 0), mv(0, 1), dict(bad), mv(0, 2), mv(1, 4)]}
+
+
+def history_cases(ctx, rs, count):
+    for _ in range(count):
+        yield gen_history(rs)
+
+
+def history_terms(hist):
+    """K: one Coq term per call, the model (pure: value in, value out) evaluated on the input VALUES at call time against
+    the values returned; returns [(term, step index)]"""
+    records, _ = exec_history(hist, wrap=True)
+    terms = []
+    for t, (st, rec) in enumerate(zip(hist["steps"], records)):
+        if rec is None:
+            continue
+        pos, tj, k = rec["a"].tolist(), rec["tj"], st["k"]
+        out, err, dr = rec["snap"], rec["err"], rec["dr"]
+        if st["op"] in ("move", "bad_move"):
+            terms.append(("chk_move %s %s %d%%nat %s %s" % (coq_pos(pos), coq_table(tj), k, v3(st["d"]), coq_obs(out, err)), t))
+        else:
+            terms.append((fmt_random("displ" if st["op"] == "displ" else "move", pos, tj, k, st["sigma_scale"], dr, out, err), t))
+    return terms
 
 
 ORACLES = {"move": (oracle_move, "move_mol_atom: "), "displ": (oracle_displ, "find_atom_random_displ: "),
-           "move_random": (oracle_move_random, "move_mol_atom(displ=None): ")}
+           "move_random": (oracle_move_random, "move_mol_atom(displ=None): "),
+           "history": (oracle_history, "history of calls: ")}
 
 
 def run_oracle(ctx, case):
@@ -641,7 +878,7 @@ def corpus_cases():
 def corpus(ctx):
     S = ctx.cov["S"]
     S["corpus"] = 0
-    for case in itertools.chain(corpus_cases(), demo_cases()):
+    for case in itertools.chain(corpus_cases(), demo_cases(), corpus_histories()):
         S["corpus"] += 1
         run_oracle(ctx, case)
 
@@ -676,21 +913,23 @@ def term_move(case):
     return t, out, err, unchanged
 
 
-def term_displ(case):
-    which = "displ" if case["kind"] == "displ" else "move"
-    out, err, dr, unchanged = impl_random(which, case["pos"], case["table"], case["k"], case["sigma_scale"], case["seed"],
-                                          case.get("force_u"))
+def fmt_random(which, pos, tj, k, sigma_scale, dr, out, err):
     u = dr.u if dr.u is not None else np.zeros(3)
     neg = dr.choice is not None and int(dr.choice) == -1
     g = dr.g if dr.g is not None else 0.0
     draws = "%s %s %s" % (v3(u), "true" if neg else "false", fl(g))
     if which == "displ":
-        t = "chk_displ %s %s %d%%nat %s %s %s %s" % (
-            coq_pos(case["pos"]), coq_table(case["table"]), case["k"], fl(case["sigma_scale"]), draws,
+        return "chk_displ %s %s %d%%nat %s %s %s %s" % (
+            coq_pos(pos), coq_table(tj), k, fl(sigma_scale), draws,
             "None" if dr.sigma is None else "(Some %s)" % fl(dr.sigma), coq_obs(out, err, one=True))
-    else:
-        t = "chk_move_random %s %s %d%%nat %s %s %s" % (
-            coq_pos(case["pos"]), coq_table(case["table"]), case["k"], fl(case["sigma_scale"]), draws, coq_obs(out, err))
+    return "chk_move_random %s %s %d%%nat %s %s %s" % (coq_pos(pos), coq_table(tj), k, fl(sigma_scale), draws, coq_obs(out, err))
+
+
+def term_displ(case):
+    which = "displ" if case["kind"] == "displ" else "move"
+    out, err, dr, unchanged = impl_random(which, case["pos"], case["table"], case["k"], case["sigma_scale"], case["seed"],
+                                          case.get("force_u"))
+    t = fmt_random(which, case["pos"], case["table"], case["k"], case["sigma_scale"], dr, out, err)
     return t, out, err, dr, unchanged
 
 
@@ -744,9 +983,25 @@ def correspondence(ctx):
         if well_formed(case):
             run_oracle(ctx, case)
             ctx.cov["S"]["on_K_cases"] = ctx.cov["S"].get("on_K_cases", 0) + 1
+    nh = 0
+    for hcase in itertools.chain(corpus_histories(), history_cases(ctx, rs, ctx.n(300, 3000))):
+        nh += 1
+        for t, step in history_terms(hcase):
+            cases.append(t)
+            meta.append({"kind": "history_step", "gen": "history", "step": step, "history": hcase})
+            st = hcase["steps"][step]
+            src = st.get("input", "start")
+            h("history/%s/input=%s" % (st["op"], src if isinstance(src, str) else src["how"]))
+        h("history/calls=%d" % len(hcase["steps"]))
+        ctx.count(("history", hcase["molecules"][0]["pos"], len(hcase["steps"]), hcase["steps"][0].get("seed")))
+        run_oracle(ctx, hcase)
+        ctx.cov["S"]["histories_on_K_cases"] = ctx.cov["S"].get("histories_on_K_cases", 0) + 1
+    K["histories"] = nh
     for i in (0, 60, len(cases) // 2, len(cases) - 1):
         m = dict(meta[i])
-        if len(m["pos"]) > 8:
+        if m["kind"] == "history_step":
+            m = {"kind": "history_step", "step": m["step"], "steps": m["history"]["steps"][:4]}
+        elif len(m["pos"]) > 8:
             m = {key: m[key] for key in m if key not in ("pos", "table", "bonds")}
         ctx.sample(m)
     codes, log = lib.run_coq_cases(ctx.cid, "K", HEADER, cases, shard=ctx.n(300, 1000))
@@ -791,6 +1046,12 @@ def oracle(ctx, scale):
         ctx.count(("smove_random", case["pos"], case["table"], case["k"], case["seed"]))
         fails += bool(run_oracle(ctx, case))
     S["move_random_x%d" % scale] = nr
+    nh = 0
+    for hcase in history_cases(ctx, rs, ctx.n(300, 3000) * scale):
+        nh += 1
+        ctx.count(("shistory", hcase["molecules"][0]["pos"], len(hcase["steps"]), hcase["steps"][0].get("seed")))
+        fails += bool(run_oracle(ctx, hcase))
+    S["histories_x%d" % scale] = nh
     if scale > 1:
         # enlarged search: the exhaustive tree family again with fresh geometry
         for case in exhaustive_trees(ctx, rs):
@@ -820,7 +1081,8 @@ def finish(ctx):
         "product is non-zero); Err EDiv0 of the model corresponds to nan in the numpy output and is compared in K",
         "the random draws of find_atom_random_displ are explicit arguments of the model (recorded by wrapping np.random.rand / "
         "choice / normal); nothing is claimed about their distribution",
-        "np.copy of the input (purity) is outside the value-semantics model; it is checked on every K and S case",
+        "np.copy of the input (purity, fresh result, no state kept between calls) is outside the value-semantics model; it is "
+        "checked on every K and S case and over call histories (inputs and all earlier results keep their values)",
         "negative atom indices (Python wrap-around) and non-float arrays are outside the model",
     ]
     return ctx.finish(level="proof", rule=RULE,
